@@ -1416,7 +1416,7 @@ class C12(Spec):
     level_text = ('Partial. Proved: C12_consume (injection into a non-empty tag clears every pending class, id, css and attribute), '
                   'C12_blank_tag_keeps, C12_bit4 (with bit 4 a Block Attributes line is the identity on the session), C12_bit4_guard, '
                   'C12_nz_no_raw_attrs (in any non-zero mode a document never accumulates raw HTML attributes -- frame theorem instance over the '
-                  'generated guards). "First tag of the next block only" over block sequences and the one-block scope of options are decided '
+                  'generated guards). C12_class_into_first_tag (for every opening tag of the generated block and list tables and every class text, injection with only a class pending returns the tag with class="..." inserted right after the tag name and clears the pending attributes). "First tag of the next block only" over block sequences and the one-block scope of options are decided '
                   'by the attribute oracle and correspondence.')
     rule = ('1-3 attribute lines (classes/id/css/attributes/options) . optional comments/blank lines . target block of 8 kinds . further blocks; '
             '16 safe modes; attributes must sit on the first tag of the target and nowhere later; non-trivial = an attribute is emitted')
